@@ -18,6 +18,7 @@ import SSEPyVerif.Proofs.Schemes.Chain
 import SSEPyVerif.Model.Schemes.PiPtr
 import SSEPyVerif.Model.Schemes.Levels
 import SSEPyVerif.Model.Schemes.Pi2Lev
+import SSEPyVerif.Proofs.Schemes.PiPtrPlace
 namespace SSEPy.C06
 open SSEPy.Sch
 
@@ -89,5 +90,28 @@ theorem Chain.labels_perm_invariant (cfg : ChainCfg) (lv : Leaves) (K : Bytes) (
   obtain ⟨L, hL, rfl⟩ := Chain.setup_eq cfg lv K db t t1 D h
   obtain ⟨L', hL', rfl⟩ := Chain.setup_eq cfg lv K db' u u1 D' h'
   exact buildTable_keys_perm L L' (hn L hL) (Chain.labels_perm cfg lv K db db' hp t t1 u u1 L L' hL hL')
+
+/-! ### (b) blocks kept in arrays are placed where the random object says, not in input order -/
+
+/-- PiPtr: after setup, array slot `i` holds an identifier block iff `i` is among the last `n` entries of the recorded
+    `random.sample(range(1, |A|), |A| - 1)`, `n` = number of identifier blocks.  Placement is a function of the random
+    sample and of `n` only: keywords, their order and their contents do not enter. -/
+theorem PiPtr.placement_is_sample (cfg : PiPtrCfg) (lv : Leaves) (K : Bytes) (db : DB) (t t' : Tape) (edb : PiPtrEDB)
+    (h : PiPtr.setup cfg lv K db t = .ok (edb, t')) (sample : List Nat) (t0 : Tape) (hs : takeNats t = .ok (sample, t0)) :
+    ∀ i, PiPtr.Occupied edb.A i ↔ i ∈ sample.drop (sample.length - PiPtr.nBlocks cfg db) :=
+  PiPtr.setup_slots cfg lv K db t t' edb h sample t0 hs
+
+/-- … so two set-ups that draw the same sample occupy the same slots whenever the databases have the same number of
+    blocks — in particular the same database with its keywords supplied in any other order — whatever the keys -/
+theorem PiPtr.placement_order_free (cfg : PiPtrCfg) (lv : Leaves) (K K' : Bytes) (db db' : DB) (t t1 u u1 : Tape)
+    (edb edb' : PiPtrEDB) (h : PiPtr.setup cfg lv K db t = .ok (edb, t1)) (h' : PiPtr.setup cfg lv K' db' u = .ok (edb', u1))
+    (sample : List Nat) (t0 u0 : Tape) (hs : takeNats t = .ok (sample, t0)) (hs' : takeNats u = .ok (sample, u0))
+    (hn : PiPtr.nBlocks cfg db = PiPtr.nBlocks cfg db') :
+    ∀ i, PiPtr.Occupied edb.A i ↔ PiPtr.Occupied edb'.A i := by
+  intro i
+  rw [PiPtr.setup_slots cfg lv K db t t1 edb h sample t0 hs i, PiPtr.setup_slots cfg lv K' db' u u1 edb' h' sample u0 hs' i, hn]
+
+/-- non-vacuity of "moves": two samples whose tails differ name different slot sets -/
+example : (3 : Nat) ∈ [1, 2, 3].drop (3 - 1) ∧ (3 : Nat) ∉ [3, 1, 2].drop (3 - 1) := by decide
 
 end SSEPy.C06
